@@ -5,10 +5,10 @@
 (* at most K operations (any wiring, any edge order) under the standard         *)
 (* reverse-derivative lenses.                                                   *)
 EXTENDS Domains, Emit
-CONSTANTS N, E, A, I, ObjL, ML, K, MaxI, MaxN, Fam, Q
+CONSTANTS N, E, A, I, ObjL, ML, K, MaxI, MaxN, Fam, Q, OL
 VARIABLES stage, kind, f, g, T
 vars == <<stage, kind, f, g, T>>
-D == Diagrams(N, E, A, I, {0}, {0})
+D == Diagrams(N, E, A, I, OL, {0})          \* OL: the generating objects of the source theory
 NoT == [fwd |-> [obj |-> <<>>, ops |-> <<>>], rev |-> [obj |-> <<>>, ops |-> <<>>], residual |-> <<>>]
 TJson(TT) == [fwd |-> [obj |-> TT.fwd.obj, ops |-> [i \in 1 .. Len(TT.fwd.ops) |-> [l |-> TT.fwd.ops[i].l, a |-> TT.fwd.ops[i].a, b |-> TT.fwd.ops[i].b, img |-> Pack(TT.fwd.ops[i].img)]]],
               rev |-> [obj |-> TT.rev.obj, ops |-> [i \in 1 .. Len(TT.rev.ops) |-> [l |-> TT.rev.ops[i].l, a |-> TT.rev.ops[i].a, b |-> TT.rev.ops[i].b, img |-> Pack(TT.rev.ops[i].img)]]],
@@ -42,8 +42,8 @@ Start == stage = 0 /\ stage' = 1 /\ UNCHANGED <<f, g, T>>
 LoadF == stage = 1 /\ kind # "deriv" /\ stage' = 2 /\ UNCHANGED <<kind, g, T>> /\ \E d \in D : f' = d
 LoadG == stage = 2 /\ stage' = 3 /\ UNCHANGED <<kind, f, T>> /\ (IF kind = "laws" THEN \E d \in D : NN(d) <= Q /\ NN(f) <= Q /\ g' = d ELSE g' = g)
 LoadObj == stage = 3 /\ UNCHANGED <<kind, f, g>> /\
-   \E fo \in SeqsUpTo({0}, ObjLen), ro \in SeqsUpTo({0}, ObjLen), mm \in SeqsUpTo({0}, ML) :
-      LET T1 == [fwd |-> [obj |-> <<fo>>, ops |-> <<>>], rev |-> [obj |-> <<ro>>, ops |-> <<>>], residual |-> <<[l |-> 0, m |-> mm]>>] IN
+   \E fo \in [1 .. Cardinality(OL) -> SeqsUpTo({0}, ObjLen)], ro \in [1 .. Cardinality(OL) -> SeqsUpTo({0}, ObjLen)], mm \in SeqsUpTo({0}, ML) :
+      LET T1 == [fwd |-> [obj |-> fo, ops |-> <<>>], rev |-> [obj |-> ro, ops |-> <<>>], residual |-> <<[l |-> 0, m |-> mm]>>] IN
       T' = T1 /\ (IF Done(T1) THEN stage' = 5 /\ Emits(T1) ELSE stage' = 4)
 LoadImg == stage = 4 /\ UNCHANGED <<kind, f, g>> /\ LET k == NextKey  m == Residual(T, k.l) IN
    \E fi \in Cands(FType(T.fwd, k.a), FType(T.fwd, k.b) \o m), ri \in Cands(m \o FType(T.rev, k.b), FType(T.rev, k.a)) :
